@@ -1,5 +1,6 @@
 (* driver for C17: case line "cb0=<act>,.. cb1=.. <op> <op> ..." (see harness/loopharness.h).
-   model mode prints the model's observation (LoopDefs.run, fixed behaviour);
+   model mode prints the model's observation (LoopDefs.run, fixed behaviour; with
+   VERIF_C17_PINNED=1 the model of the pinned code, LoopAsIs.a_run, FAULT = use after free);
    oracle mode reads "<case> | <obs>" and applies LoopSpec.spec_checkb. *)
 let zi = z_of_int
 let flags_of n = { f_first = n land 1 <> 0; f_unbind = n land 2 <> 0; f_destroy = n land 4 <> 0 }
@@ -57,9 +58,16 @@ let parse_obs s =
           | _ -> failwith "event")
       | _ -> failwith ("obs " ^ tok))
     (List.filter (fun x -> x <> "-") (split_ws s))
+let rec nat_of_int n = if n <= 0 then O else S (nat_of_int (n - 1))
+let pinned = (try Sys.getenv "VERIF_C17_PINNED" = "1" with Not_found -> false)
 let model line =
   let (env, ops) = parse_case line in
-  pr_obs (run false env ops)
+  if pinned then
+    (* the pinned library (LoopAsIs.v, and the UNBIND|UNBIND mask of tickit_watch_io) *)
+    match a_run true env (nat_of_int 3000) ops with
+    | Some l -> pr_obs l
+    | None -> "FAULT"
+  else pr_obs (run false env ops)
 let oracle line =
   match String.index_opt line '|' with
   | Some i ->
